@@ -199,8 +199,9 @@ int32 VSsetname(int32 vkey, const char *vsname)
     __CPROVER_requires(g_o >= 0 && g_o <= VSNAMELENMAX && g_old_c == g_vs->vsname[g_o] && g_old_hsz == g_vs->new_h_sz)
     /* the frame: nothing but the 65-byte name field and the two flags is written */
     __CPROVER_assigns(g_vs->vsname, g_vs->marked, g_vs->new_h_sz)
-    __CPROVER_ensures((KEY_BAD || vsname == NULL) ==> __CPROVER_return_value == FAIL)
-    __CPROVER_ensures(!(KEY_BAD || vsname == NULL) ==> __CPROVER_return_value == SUCCEED)
+    /* refused: bad key, no name, or a vdata not attached for writing (C14) */
+    __CPROVER_ensures((KEY_BAD || vsname == NULL || g_vs->access != 'w') ==> __CPROVER_return_value == FAIL)
+    __CPROVER_ensures(!(KEY_BAD || vsname == NULL || g_vs->access != 'w') ==> __CPROVER_return_value == SUCCEED)
     /* always NUL-terminated, at the length of the name or at the limit */
     __CPROVER_ensures(__CPROVER_return_value == SUCCEED ==> g_vs->vsname[NM_KEPT] == 0)
     __CPROVER_ensures((__CPROVER_return_value == SUCCEED && g_k >= 0 && g_k < NM_KEPT) ==> g_vs->vsname[g_k] == vsname[g_k])
@@ -214,8 +215,9 @@ int32 VSsetclass(int32 vkey, const char *vsclass)
     __CPROVER_requires(g_old_len >= 0 && g_old_len <= VSNAMELENMAX && g_vs->vsclass[g_old_len] == 0)
     __CPROVER_requires(g_o >= 0 && g_o <= VSNAMELENMAX && g_old_c == g_vs->vsclass[g_o] && g_old_hsz == g_vs->new_h_sz)
     __CPROVER_assigns(g_vs->vsclass, g_vs->marked, g_vs->new_h_sz)
-    __CPROVER_ensures((KEY_BAD || vsclass == NULL) ==> __CPROVER_return_value == FAIL)
-    __CPROVER_ensures(!(KEY_BAD || vsclass == NULL) ==> __CPROVER_return_value == SUCCEED)
+    /* refused: bad key, no name, or a vdata not attached for writing (C14) */
+    __CPROVER_ensures((KEY_BAD || vsclass == NULL || g_vs->access != 'w') ==> __CPROVER_return_value == FAIL)
+    __CPROVER_ensures(!(KEY_BAD || vsclass == NULL || g_vs->access != 'w') ==> __CPROVER_return_value == SUCCEED)
     __CPROVER_ensures(__CPROVER_return_value == SUCCEED ==> g_vs->vsclass[NM_KEPT] == 0)
     __CPROVER_ensures((__CPROVER_return_value == SUCCEED && g_k >= 0 && g_k < NM_KEPT) ==> g_vs->vsclass[g_k] == vsclass[g_k])
     __CPROVER_ensures(__CPROVER_return_value == SUCCEED ==>
@@ -393,6 +395,8 @@ mk_name(VDATA *vs, char *field)
         field[i] = (char)(cur[i] & 0x7f);
     field[VSNAMELENMAX] = 0;
     vs->marked   = 0;
+    H4V_ND(int, writable);
+    vs->access = writable ? 'w' : 'r';
     H4V_ND(int, hsz);
     vs->new_h_sz = hsz;
     g_old_hsz    = hsz;
